@@ -598,3 +598,36 @@ impl ContentLength {
         matches!(*self, Self::Head)
     }
 }
+
+#[cfg(feature = "h2_verif")]
+impl Stream {
+    /// Read-only statistics for the verification harness (JSON object).
+    pub(super) fn verif_json(&self) -> String {
+        format!(
+            "{{\"id\":{},\"state\":\"{}\",\"is_counted\":{},\"ref_count\":{},\"send_window\":{},\"send_available\":{},\
+             \"requested\":{},\"buffered\":{},\"pending_send_empty\":{},\"is_pending_send\":{},\"is_pending_open\":{},\
+             \"is_pending_push\":{},\"is_pending_accept\":{},\"recv_window\":{},\"recv_available\":{},\
+             \"in_flight_recv\":{},\"is_recv\":{},\"pending_recv_empty\":{},\"reset_at\":{},\"is_pending_window_update\":{}}}",
+            u32::from(self.id),
+            format!("{:?}", self.state).replace('"', "'").replace('\\', "/"),
+            self.is_counted,
+            self.ref_count,
+            self.send_flow.window_size(),
+            isize::from(self.send_flow.available()),
+            self.requested_send_capacity,
+            self.buffered_send_data,
+            self.pending_send.is_empty(),
+            self.is_pending_send,
+            self.is_pending_open,
+            self.is_pending_push,
+            self.is_pending_accept,
+            self.recv_flow.window_size(),
+            isize::from(self.recv_flow.available()),
+            self.in_flight_recv_data,
+            self.is_recv,
+            self.pending_recv.is_empty(),
+            self.reset_at.is_some(),
+            self.is_pending_window_update,
+        )
+    }
+}
